@@ -1,3 +1,4 @@
+import Std.Data.HashMap
 import LlgoVerif.Util
 import LlgoVerif.Model.HMap
 /-! Line-protocol driver for C06 (`modeld_c06`): the bucket-level map model driven with the real hashes.
@@ -6,7 +7,7 @@ import LlgoVerif.Model.HMap
     rand v v …            append to the fastrand script
     mk <hint> | nil | clr | len
     set <K> <v> | get <K> | get1 <K> | del <K>
-    itn <slot> | itx <slot>
+    itn <slot> (NewMapIter + first MapIterNext) | itx <slot>
   <K> = cls,repr,refl,unhashable,nankind,hash(hex)   (eq a b := a.refl ∧ b.refl ∧ a.cls = b.cls)
   answer: `<result> | st=count,flags,B,noverflow,nevacuate,growing,hash0 fr=<fastrand calls> th=<throws>` -/
 open LlgoVerif LlgoVerif.Util LlgoVerif.HMap
@@ -29,12 +30,17 @@ def nanHash (seed : UInt32) (k : DK) (x : UInt32) : UInt64 :=
   let r := x.toUInt64
   if k.nanKind == 0 then c1 * (c0 ^^^ h ^^^ r) else c1 * (c1 * (c0 ^^^ (h ^^^ c0) ^^^ r))
 
-def mkOps (refl upd mp : Bool) : Ops DK :=
-  { hash := fun _ k => k.hash, nanHash := nanHash, eq := fun a b => a.refl && b.refl && a.cls == b.cls,
+/-- the hashes printed by the real code so far, per (seed, key class); a key never hashed under a seed is not in
+    the map under that seed, so the fallback value is never decisive -/
+abbrev HashTab := Std.HashMap (UInt32 × Nat) UInt64
+
+def mkOps (tab : HashTab) (refl upd mp : Bool) : Ops DK :=
+  { hash := fun seed k => tab.getD (seed, k.cls) k.hash, nanHash := nanHash, eq := fun a b => a.refl && b.refl && a.cls == b.cls,
     unhashable := fun k => k.unh, reflexiveKey := refl, needKeyUpdate := upd, hashMightPanic := mp }
 
 structure St where
-  ops : Ops DK := mkOps true false false
+  tab : HashTab := {}
+  flags : Bool × Bool × Bool := (true, false, false)
   m : MapRef DK Nat := .nil {}
   its : List (String × Iter DK Nat) := []
 
@@ -72,12 +78,19 @@ def pruneSt (s : St) : St :=
     { s with m := .ref (h.prune keep) }
   | _ => s
 
+def St.ops (s : St) : Ops DK := mkOps s.tab s.flags.1 s.flags.2.1 s.flags.2.2
+
+def St.seed (s : St) : UInt32 := match s.m with | .ref h => h.hash0 | .nil _ => 0
+
+def St.learn (s : St) (k : DK) : St :=
+  if k.refl && !k.unh then { s with tab := s.tab.insert (s.seed, k.cls) k.hash } else s
+
 def step (s : St) (line : String) : St × String :=
   let fin (s : St) (ans : String) : St × String :=
     let s := pruneSt s
     (s, ans ++ " | " ++ stStr s.m)
   match fields line with
-  | ["kind", a, b, c] => fin { ops := mkOps (a == "1") (b == "1") (c == "1") } "ok"
+  | ["kind", a, b, c] => fin { flags := (a == "1", b == "1", c == "1") } "ok"
   | "rand" :: vs =>
     match vs.mapM (fun v => v.toNat?.map UInt32.ofNat) with
     | some l => fin { s with m := addRand s.m l } "ok"
@@ -90,6 +103,7 @@ def step (s : St) (line : String) : St × String :=
   | ["set", k, v] =>
     match parseKey k, v.toNat? with
     | some k, some v =>
+      let s := s.learn k
       match mapAssign s.ops s.m k v with
       | .ok m => fin { s with m := m } "ok"
       | .error e => fin s (errStr e)
@@ -98,6 +112,7 @@ def step (s : St) (line : String) : St × String :=
     if op == "get" || op == "get1" then
       match parseKey k with
       | some k =>
+        let s := s.learn k
         match mapAccess s.ops s.m k with
         | .ok (r, m) =>
           let v := match r with | some v => toString v | none => "0"
@@ -107,13 +122,22 @@ def step (s : St) (line : String) : St × String :=
     else if op == "del" then
       match parseKey k with
       | some k =>
+        let s := s.learn k
         match mapDelete s.ops s.m k with
         | .ok m => fin { s with m := m } "ok"
         | .error e => fin s (errStr e)
       | none => (s, "bad-op")
     else if op == "itn" then
+      -- NewMapIter immediately followed by the first MapIterNext (as `for range` does)
       match newMapIter s.ops s.m with
-      | .ok (it, m) => fin { s with m := m, its := (k, it) :: s.its.filter (·.1 != k) } "ok"
+      | .ok (it, m) =>
+        match mapIterNext s.ops m it with
+        | .ok (r, it) =>
+          let s := { s with m := m, its := (k, it) :: s.its.filter (·.1 != k) }
+          match r with
+          | some (key, v) => fin s s!"k={key.repr} v={v}"
+          | none => fin s "end"
+        | .error e => fin s (errStr e)
       | .error e => fin s (errStr e)
     else if op == "itx" then
       match s.its.find? (·.1 == k) with
